@@ -533,3 +533,29 @@ class SyncedCollection(Collection):
     def __str__(self):
         self._load()
         return str(self._data)
+
+
+def _detach_synced(value):
+    """Replace synced collections inside user-supplied data by copies of their content.
+
+    Bulk updates merge the new data into the existing nested collections in
+    place. If the new data refers to (children of) the collection being updated,
+    e.g. ``d.update(a=d["b"], b=d["a"])``, those children would change while
+    they are still being read. Containers without synced collections are
+    returned unchanged.
+    """
+    from collections.abc import Mapping, Sequence
+
+    if isinstance(value, SyncedCollection):
+        return value()
+    if isinstance(value, Mapping):
+        new = {k: _detach_synced(v) for k, v in value.items()}
+        if any(new[k] is not v for k, v in value.items()):
+            return new
+        return value
+    if isinstance(value, Sequence) and not isinstance(value, (str, bytes, bytearray)):
+        new = [_detach_synced(v) for v in value]
+        if any(a is not b for a, b in zip(new, value)):
+            return new
+        return value
+    return value
